@@ -97,6 +97,20 @@ Apply(s, o) ==
       [] o.op = "data"    -> R2(m, DataOp(s, o.a))
       [] o.op = "size"    -> R2(m, s.obj[o.a].len)
 
+\* ---- the operations explored in every state (mx: largest element count, wf: allocations may be made to fail)
+Huge == {[k |-> "max", n |-> d] : d \in 0..1}
+Bounds(mx) == {N(x) : x \in 0..(mx + 1)} \cup Huge
+OKs(wf) == IF wf THEN {<<TRUE, TRUE>>, <<FALSE, TRUE>>, <<TRUE, FALSE>>} ELSE {<<TRUE, TRUE>>}
+OpSetF(mx, wf) ==
+    {[op |-> "alloc", a |-> a, nm |-> N(n), sz |-> 4, ok |-> k] : a \in OBJ, n \in {0, 2, mx}, k \in OKs(wf)}
+    \cup {[op |-> "alloc", a |-> a, nm |-> h, sz |-> z, ok |-> <<TRUE, TRUE>>] : a \in OBJ, h \in Huge, z \in {1, 4}}
+    \cup {[op |-> "set", a |-> a, e |-> e, enm |-> mx, sz |-> 4, ok |-> k] : a \in OBJ, e \in 1..2, k \in OKs(wf)}
+    \cup {[op |-> "slice", a |-> a, beg |-> b, end |-> e, s |-> s] : a \in OBJ, s \in OBJ, b \in Bounds(mx), e \in Bounds(mx)}
+    \cup {[op |-> "unslice", s |-> s, a |-> a] : s \in OBJ, a \in OBJ}
+    \cup {[op |-> "reset", a |-> a] : a \in OBJ} \cup {[op |-> "release", a |-> a, nob |-> x] : a \in OBJ, x \in BOOLEAN}   \* nob: NULL out-parameter (documented as allowed)
+    \cup {[op |-> "at", a |-> a, i |-> i] : a \in OBJ, i \in Bounds(mx)}
+    \cup {[op |-> "data", a |-> a] : a \in OBJ} \cup {[op |-> "size", a |-> a] : a \in OBJ}
+
 (***************************************************************************)
 (* Contract (C14)                                                          *)
 (***************************************************************************)
